@@ -63,19 +63,20 @@ pub fn campaign(ctx: &RunCtx, target: &str, jobs: u64, runs: u64, max_len: usize
             .arg("-timeout=60")
             .arg("-print_final_stats=1")
             .stdout(Stdio::null())
-            .stderr(Stdio::piped())
+            // to a file, not a pipe: the jobs are only waited for one after the other, and a full pipe would stall the others
+            .stderr(std::fs::File::create(format!("{}/log{}.txt", base, j)).map_err(|e| e.to_string())?)
             .spawn()
             .map_err(|e| format!("spawn fuzz job: {}", e))?;
-        children.push(child);
+        children.push((child, format!("{}/log{}.txt", base, j)));
     }
     let mut runs_done = 0u64;
     let mut cov = 0u64;
     let mut ft = 0u64;
     let mut corpus = 0u64;
     let mut failed_jobs = 0;
-    for c in children {
-        let out = c.wait_with_output().map_err(|e| e.to_string())?;
-        let log = String::from_utf8_lossy(&out.stderr);
+    for (mut c, logfile) in children {
+        let status = c.wait().map_err(|e| e.to_string())?;
+        let log = std::fs::read_to_string(&logfile).unwrap_or_default();
         for l in log.lines() {
             if let Some(r) = l.strip_prefix("stat::number_of_executed_units:") {
                 runs_done += r.trim().parse::<u64>().unwrap_or(0);
@@ -87,7 +88,7 @@ pub fn campaign(ctx: &RunCtx, target: &str, jobs: u64, runs: u64, max_len: usize
                 corpus = corpus.max(l.split(" corp: ").nth(1).and_then(|r| r.split('/').next()).and_then(|x| x.trim().parse().ok()).unwrap_or(0));
             }
         }
-        if !out.status.success() {
+        if !status.success() {
             failed_jobs += 1;
         }
     }
